@@ -70,6 +70,12 @@ def corner_models():
                                     [oh.make_tensor_value_info("y", TP.FLOAT, ["N"])]), True))
     out.append(("custom-domain", mk([oh.make_node("Foo", ["x"], ["y"], domain="my.dom")], [vi("x")], [vi("y")],
                                     extra_imports=[oh.make_operatorsetid("my.dom", 2)]), False))
+    # a domain that only nodes INSIDE a control-flow body of m use: its import is as much part of m as any other
+    then_c = oh.make_graph([oh.make_node("Foo", ["x"], ["tb"], domain="my.dom")], "then", [], [vi("tb")])
+    else_c = oh.make_graph([oh.make_node("Identity", ["x"], ["eb"])], "else", [], [vi("eb")])
+    out.append(("custom-domain-in-branch", mk([oh.make_node("If", ["c"], ["y"], then_branch=then_c, else_branch=else_c)],
+                                              [vi("x"), vi("c", (), TP.BOOL)], [vi("y")],
+                                              extra_imports=[oh.make_operatorsetid("my.dom", 3)]), False))
     sp_vals = numpy_helper.from_array(np.array([5.0], F32), "sw")
     sp_idx = numpy_helper.from_array(np.array([1], np.int64), "sw_idx")
     sparse = onnx.helper.make_sparse_tensor(sp_vals, sp_idx, [2])
